@@ -104,6 +104,8 @@ def units(tier, seed):
                 continue            # Gamma is rebuilt by the library on every init/extract call: left to the thorough tier
             for form in ('prod', 'pow'):
                 us.append({'kind': 'mono', 'N': N, 'driver': 'tensor', 'd': d, 'form': form, 'tier': tier, 'seed': seed})
+    us.append({'kind': 'dtype', 'tier': tier, 'seed': seed})
+    us.append({'kind': 'repeat', 'tier': tier, 'seed': seed})
     progs = [p for p in PR.depth1()]
     for i in range(0, len(progs), 40):
         us.append({'kind': 'smooth', 'progs': progs[i:i + 40], 'tier': tier, 'seed': seed})
@@ -307,8 +309,89 @@ def run_smooth(c, progs, seed):
                 c.fail('C09|smooth hess_vec|raises|prog=%s' % ps, case, {'error': str(ex)[:160]})
 
 
+def run_dtype(c):
+    """base points / directions of every numeric kind: the seeded drivers must give the float64 answer for a NON-polynomial
+    program (integer dtypes must be promoted, fractional directions must not be truncated)"""
+    def f(x):
+        return x[0] / x[1] + algopy.sqrt(x[0] * x[1]) + x[2] * x[0]
+    base = [4, 2, 3]
+    kinds = {'list of int': lambda: list(base), 'int64': lambda: np.array(base, dtype=np.int64), 'int32': lambda: np.array(base, dtype=np.int32),
+             'int16': lambda: np.array(base, dtype=np.int16), 'uint8': lambda: np.array(base, dtype=np.uint8),
+             'float64': lambda: np.array(base, dtype=np.float64)}
+    xf = np.array(base, dtype=float)
+    v = np.array([0.5, -1.5, 0.25])
+    N = 3
+    ref = {
+        'jacobian': UTPM.extract_jacobian(f(UTPM.init_jacobian(xf))),
+        'jac_vec': UTPM.extract_jac_vec(f(UTPM.init_jac_vec(xf, v))),
+        'hessian': UTPM.extract_hessian(N, f(UTPM.init_hessian(xf))),
+        'hess_vec': UTPM.extract_hess_vec(N, f(UTPM.init_hess_vec(xf, v))),
+        'tensor2': UTPM.extract_tensor(N, f(UTPM.init_tensor(2, xf)), as_full_matrix=False),
+        'tensor3': UTPM.extract_tensor(N, f(UTPM.init_tensor(3, xf)), as_full_matrix=False),
+    }
+    # the float64 reference itself against closed forms (first and second derivatives of f at (4,2,3))
+    x0, x1, x2 = xf
+    g = np.array([1 / x1 + 0.5 * np.sqrt(x1 / x0) + x2, -x0 / x1 ** 2 + 0.5 * np.sqrt(x0 / x1), x0])
+    c.check('dtype', 'float64 jacobian vs closed form', ref['jacobian'], g, 1.0, {'kind_of_x': 'float64'})
+    c.check('dtype', 'float64 jac_vec vs closed form', ref['jac_vec'], g.dot(v), 1.0, {'kind_of_x': 'float64'})
+    for kn, mk in kinds.items():
+        for vk, vv in (('fractional v', v), ('integer-valued v', np.array([1.0, -2.0, 3.0])), ('int-dtype v', np.array([1, -2, 3]))):
+            case = {'kind_of_x': kn, 'kind_of_v': vk}
+            try:
+                if vk == 'fractional v':
+                    c.check('dtype', 'jacobian|x %s' % kn, UTPM.extract_jacobian(f(UTPM.init_jacobian(mk()))), ref['jacobian'], 1.0, case)
+                    c.check('dtype', 'hessian|x %s' % kn, UTPM.extract_hessian(N, f(UTPM.init_hessian(mk()))), ref['hessian'], 1.0, case)
+                    c.check('dtype', 'tensor d=2|x %s' % kn, UTPM.extract_tensor(N, f(UTPM.init_tensor(2, mk())), as_full_matrix=False), ref['tensor2'], 1.0, case)
+                    c.check('dtype', 'tensor d=3|x %s' % kn, UTPM.extract_tensor(N, f(UTPM.init_tensor(3, mk())), as_full_matrix=False), ref['tensor3'], 1.0, case)
+                vref = np.asarray(vv, dtype=float)
+                rjv = UTPM.extract_jac_vec(f(UTPM.init_jac_vec(xf, vref)))
+                rhv = UTPM.extract_hess_vec(N, f(UTPM.init_hess_vec(xf, vref)))
+                c.check('dtype', 'jac_vec|x %s|%s' % (kn, vk), UTPM.extract_jac_vec(f(UTPM.init_jac_vec(mk(), vv))), rjv, 1.0, case)
+                c.check('dtype', 'hess_vec|x %s|%s' % (kn, vk), UTPM.extract_hess_vec(N, f(UTPM.init_hess_vec(mk(), vv))), rhv, 1.0, case)
+            except Exception as ex:
+                c.fail('C09|dtype|raises|x %s|%s' % (kn, vk), case, {'error': '%s: %s' % (type(ex).__name__, str(ex)[:160])})
+
+
+def run_repeat(c):
+    """extraction is a pure function of the propagated object: extracting twice gives the same answer and leaves it intact"""
+    def f(x):
+        return x[0] * x[1] * x[2] + x[0] ** 3 - 2.0 * x[1] * x[1] * x[2]
+    x = np.array([2.0, -1.0, 3.0])
+    v = np.array([1.0, 2.0, -1.0])
+    N = 3
+    cases = [('jacobian', UTPM.init_jacobian(x), lambda y: UTPM.extract_jacobian(y)),
+             ('jac_vec', UTPM.init_jac_vec(x, v), lambda y: UTPM.extract_jac_vec(y)),
+             ('hessian', UTPM.init_hessian(x), lambda y: UTPM.extract_hessian(N, y)),
+             ('hess_vec', UTPM.init_hess_vec(x, v), lambda y: UTPM.extract_hess_vec(N, y)),
+             ('tensor', UTPM.init_tensor(2, x), lambda y: UTPM.extract_tensor(N, y)),
+             ('tensor_vec', UTPM.init_tensor(3, x), lambda y: UTPM.extract_tensor(N, y, as_full_matrix=False))]
+    for nm, X, ext in cases:
+        y = f(X)
+        snap = y.data.copy()
+        try:
+            r1 = np.array(ext(y), copy=True)
+            keep = ext(y)
+            r2 = np.array(keep, copy=True)
+            r3 = np.array(ext(y), copy=True)
+        except Exception as ex:
+            c.fail('C09|repeat|%s|raises' % nm, {'driver': nm}, {'error': str(ex)[:160]})
+            continue
+        c.out['evals'] += 1
+        c.out['nontrivial'] += 1
+        if not np.array_equal(y.data, snap):
+            c.fail('C09|repeat|%s|extraction modified the propagated object' % nm, {'driver': nm}, {})
+        elif not (np.array_equal(r1, r2) and np.array_equal(r1, r3) and np.array_equal(np.asarray(keep), r1)):
+            c.fail('C09|repeat|%s|second extraction differs' % nm, {'driver': nm}, {'first': r1.ravel()[:4].tolist(), 'second': r2.ravel()[:4].tolist()})
+
+
 def run_unit(u):
     c = Ctx(u)
+    if u['kind'] == 'dtype':
+        run_dtype(c)
+        return c.out
+    if u['kind'] == 'repeat':
+        run_repeat(c)
+        return c.out
     if u['kind'] == 'mono':
         run_mono(c, u['N'], u['driver'], u['tier'], u.get('d'), u.get('form'))
     else:
